@@ -330,7 +330,7 @@ func checkWire(c *Case, b hotline.AccessBitmap) {
 
 func init() {
 	props["C16"] = func(x *Ctx) {
-		x.rule = "bitmaps: every single bit 0..63, every pair of the 40 defined privileges (780), random (uniform / sparse / dense / defined-only / undefined positions forced); each goes through the real yaml.v3 + MarshalYAML/UnmarshalYAML in both storage formats (named map, legacy numeric array) and, at account level, through NewYAMLAccountManager incl. migration and a restart; single bits and a random sample also through a real login (transaction 354 field 110) and get-user; set-user on an account with 1..3 live sessions (354 to each session = the new raw bytes = memory = disk = authorization); sequences of creates / updates of several accounts through the account manager followed by a restart. non-trivial = non-zero bitmap that completed the round trip; distinct = distinct (level, bitmap)"
+		x.rule = "bitmaps: every single bit 0..63, every pair of the 40 defined privileges (780), random (uniform / sparse / dense / defined-only / undefined positions forced); each goes through the real yaml.v3 + MarshalYAML/UnmarshalYAML in both storage formats (named map, legacy numeric array) and, at account level, through NewYAMLAccountManager incl. migration and a restart; single bits and a random sample also through a real login (transaction 354 field 110) and get-user; set-user on an account with 1..3 live sessions (354 to each session = the new raw bytes = memory = disk = authorization); sequences of creates / updates of several accounts through the account manager followed by a restart; account edits (new-user / set-user / update-user modify, rename, create) serialised and parsed back by the real Transaction.Write with 4000..60000-byte fields and sub-fields around the 8 privilege bytes in every order (wire = memory = get-user = file = restart); the same edits and manager calls while the store cannot write its temporary file (memory = file). non-trivial = non-zero bitmap that completed the round trip; distinct = distinct (level, bitmap)"
 		x.assume = []string{
 			"gopkg.in/yaml.v3 maps a struct of bools to a key/value mapping and back (exercised on every case, not proved)",
 			"documented account-file names of the privileges: lean/MobiusModel/Spec/Governing.lean accessYamlNames (hand-written)",
@@ -641,6 +641,8 @@ func init() {
 			c.Dist(fmt.Sprintf("write-sequence/steps-%d", steps))
 			c.Nontrivial(strings.Join(ops, ";"))
 		}})
+		x.Add(&Family{Name: "edit-through-wire", Quick: 240, Thor: 4000, Run: c16EditThroughWire})
+		x.Add(&Family{Name: "failed-save", Quick: 150, Thor: 2000, Run: c16FailedSave})
 		x.Add(&Family{Name: "wire-field", Quick: 90, Thor: 400, Run: func(c *Case) {
 			var b hotline.AccessBitmap
 			if idx := tableIndex(c, 400); idx < 64 {
@@ -651,5 +653,14 @@ func init() {
 			checkWire(c, b)
 			c.Dist("wire")
 		}})
+		if only := os.Getenv("VERIF_FAMILY"); only != "" { // development aid: run one family
+			var keep []*Family
+			for _, f := range x.families {
+				if f.Name == only {
+					keep = append(keep, f)
+				}
+			}
+			x.families = keep
+		}
 	}
 }
